@@ -149,6 +149,26 @@ func genKeys(G *simrt.Tape, n int, prefix string) []*Key {
 	return ks
 }
 
+// withRotations appends, for some keys, a variant with the same id and new key
+// material (another secret; the same cipher or one with the same salt size): a
+// later configuration may carry the id with the new material.
+func withRotations(G *simrt.Tape, ks []*Key) []*Key {
+	if G.Draw(3) != 0 {
+		return ks
+	}
+	sameSalt := map[string][]string{"chacha20-ietf-poly1305": {"chacha20-ietf-poly1305", "aes-256-gcm"}, "aes-256-gcm": {"aes-256-gcm", "chacha20-ietf-poly1305"},
+		"aes-192-gcm": {"aes-192-gcm"}, "aes-128-gcm": {"aes-128-gcm"}}
+	n := len(ks)
+	for i := 0; i < n; i++ {
+		if G.Draw(3) == 0 {
+			cs := sameSalt[ks[i].Cipher]
+			ks = append(ks, mkKey(ks[i].ID, cs[G.Draw(len(cs))], ks[i].Secret+"-rotated"))
+			simrt.Probe("key_material_rotated_under_same_id")
+		}
+	}
+	return ks
+}
+
 // cryptoDup reports whether another key of the list has k's cipher and secret.
 func cryptoDup(keys []*Key, k *Key) bool {
 	for _, o := range keys {
@@ -295,27 +315,42 @@ type RecMetrics struct {
 
 var _ service.ServiceMetrics = (*RecMetrics)(nil)
 
+// serverEndOf identifies the simulated connection behind a net.Conn the server
+// hands out (it may be a wrapper): by concrete type, else by its endpoints (the
+// latest accepted connection from that remote address).
+func serverEndOf(conn net.Conn) *simnet.TCPConn {
+	if tc, ok := conn.(*simnet.TCPConn); ok {
+		return tc
+	}
+	if conn == nil || conn.RemoteAddr() == nil {
+		return nil
+	}
+	ra, la := conn.RemoteAddr().String(), ""
+	if conn.LocalAddr() != nil {
+		la = conn.LocalAddr().String()
+	}
+	cs := simnet.W().Conns
+	for i := len(cs) - 1; i >= 0; i-- {
+		se := cs[i].Ends[1]
+		if se != nil && se.RemoteAddr().String() == ra && (la == "" || se.LocalAddr().String() == la) {
+			return se
+		}
+	}
+	return nil
+}
+
+func connIDOf(conn net.Conn) int {
+	if se := serverEndOf(conn); se != nil {
+		return se.Rec.ID
+	}
+	return 0
+}
+
 func (m *RecMetrics) AddOpenTCPConnection(conn net.Conn) service.TCPConnMetrics {
 	r := &TCPRec{OpenedAt: simrt.Elapsed()}
-	if tc, ok := conn.(*simnet.TCPConn); ok {
-		r.ConnID = tc.Rec.ID
-		r.Server = tc
-	} else if conn != nil && conn.RemoteAddr() != nil {
-		// the server may hand the metrics a wrapper: identify the connection by
-		// its endpoints (the latest accepted connection from that remote address)
-		ra, la := conn.RemoteAddr().String(), ""
-		if conn.LocalAddr() != nil {
-			la = conn.LocalAddr().String()
-		}
-		cs := simnet.W().Conns
-		for i := len(cs) - 1; i >= 0; i-- {
-			se := cs[i].Ends[1]
-			if se != nil && se.RemoteAddr().String() == ra && (la == "" || se.LocalAddr().String() == la) {
-				r.ConnID = cs[i].ID
-				r.Server = se
-				break
-			}
-		}
+	if se := serverEndOf(conn); se != nil {
+		r.ConnID = se.Rec.ID
+		r.Server = se
 	}
 	if m.Inner != nil {
 		r.inner = m.Inner.AddOpenTCPConnection(conn)
